@@ -107,6 +107,7 @@ class Interp(object):
         self.late_calls = False
         self.strict_warnings = False
         self.cross_thread = False  # part of the action blocks are entered and run on another thread than the one that created the Action
+        self.stdlib_bad_format = False  # part of the stdlib messages are logged with arguments that do not fit their format string
         self.stdlib_tb = False  # part of the traceback nodes go through logging.Logger.error(exc_info=...) and eliot.stdlib.EliotHandler
         self.before_msg = None  # hooks around every message-logging node: mark = before_msg(); ...; after_msg(mark)
         self.after_msg = None
@@ -146,6 +147,7 @@ class Interp(object):
         with self._stdlib_lock:
             if self._stdlib is None:
                 from eliot.stdlib import EliotHandler
+                logging.raiseExceptions = False  # (production setting: Handler.handleError stays silent instead of printing to stderr)
                 lg_ = logging.Logger("vf.stdlib")  # an object of its own, not the registry's: one handler per interpreter
                 lg_.propagate = False
                 lg_.setLevel(logging.DEBUG)
@@ -353,6 +355,23 @@ class Interp(object):
                 # the record's msg is an object (an exception instance, a lazily formatted message), not a string
                 obj = ValueError(text) if node["nid"] % 2 else _LazyText(text)
                 self.api("logging.Logger.warning(object)", lg_.warning, obj)
+            elif isinstance(node["nid"], int) and node["nid"] % 5 == 2:
+                # no %-arguments at all: the text is taken as it is, per cent signs included ("progress: 100% done", pre-formatted text)
+                text = "stdlib message 100% done, %d%% of %s nid=" + str(node["nid"])
+                self.count("msg:stdlib text with per cent signs and no arguments")
+                self.api("logging.Logger.warning(text with %, no args)", lg_.warning, text)
+            elif self.stdlib_bad_format and isinstance(node["nid"], int) and node["nid"] % 5 == 3:
+                # the arguments do not fit the format string: the logging package's contract is that the handler deals with it
+                # (Handler.handleError), the application's call returns; nothing is logged for it
+                self.count("msg:stdlib arguments do not fit the format")
+                import logging as _logging
+                old_raise = _logging.raiseExceptions
+                _logging.raiseExceptions = False  # (production setting: handleError stays silent instead of printing to stderr)
+                try:
+                    self.api("logging.Logger.warning(arguments do not fit the format)", lg_.warning, "stdlib %d items nid=%s", "many", node["nid"])
+                finally:
+                    _logging.raiseExceptions = old_raise
+                return
             else:
                 self.api("logging.Logger.warning", lg_.warning, "stdlib message nid=%s", node["nid"])
             t, decl = "eliot:stdlib", None
